@@ -2807,11 +2807,14 @@ func (ff *FuncFacts) PathToExitAvoiding(from ast.Node, good func(n ast.Node, st 
 			return pos, true
 		}
 		var outs []*State
-		if len(b.Succs) == 2 && blocked != nil {
+		if len(b.Succs) == 2 {
 			outs = ff.transfer(b, ff.blockIn[b], false)
 		}
 		for i, s := range b.Succs {
-			if outs != nil && outs[i] != nil {
+			if outs != nil && outs[i] == nil && ff.blockIn[b] != nil {
+				continue // the edge cannot be taken (contradictory facts)
+			}
+			if outs != nil && outs[i] != nil && blocked != nil {
 				skip := false
 				for _, f := range outs[i].m {
 					if blocked(f) {
@@ -2878,11 +2881,14 @@ func (ff *FuncFacts) PathSearch(from ast.Node, init int, step func(n ast.Node, s
 			return pos, true
 		}
 		var outs []*State
-		if len(b.Succs) == 2 && blocked != nil {
+		if len(b.Succs) == 2 {
 			outs = ff.transfer(b, ff.blockIn[b], false)
 		}
 		for i, s := range b.Succs {
-			if outs != nil && outs[i] != nil {
+			if outs != nil && outs[i] == nil && ff.blockIn[b] != nil {
+				continue // the edge cannot be taken (contradictory facts)
+			}
+			if outs != nil && outs[i] != nil && blocked != nil {
 				skip := false
 				for _, f := range outs[i].m {
 					if blocked(f) {
